@@ -161,3 +161,39 @@ Example sha256_two_blocks :
   string_of_list_ascii (sha256_hex (B "abcdbcdecdefdefgefghfghighijhijkijkljklmklmnlmnomnopnopq")) =
   "248d6a61d20638b8e5c026930c3e6039a33ce45964ff2167f6ecedd419db06c1"%string.
 Proof. vm_compute. reflexivity. Qed.
+
+(* ---- 4. histories with crash points of the write block, under plain open() and under atomicwrites (round 12) --- *)
+From LV Require Import Cache.WritePath.
+
+Record hev2 := mkHev2 {
+  h2_cfg : ccfg; h2_env : list (string * string); h2_sem : fsem; h2_cp : option cpoint;
+  h2_built : option (nat * nat); h2_hit : bool; h2_after : option fileref }.
+
+Fixpoint check_events2 (tu : tblU) (td : tblD) (fl : file) (l : list hev2) : bool :=
+  match l with
+  | [] => true
+  | ev :: r =>
+      let bld := match h2_built ev with
+                 | None => None
+                 | Some (iu, id) => Some (mkBuilt bytes (bool * bytes) (snd (nth iu tu ([], []))) (nth id td [])
+                                                  (false, nth id td []))
+                 end in
+      let e := env_of (sE (h2_env ev)) in
+      let '(o, fl') := step2 unit sha256_hex bytes (bool * bytes) (enc_U tu) (dec_U tu) (fun d => d) (dec_D td)
+                             (fun _ _ => bld) (fun d _ => Some (true, d)) fl
+                             (mkEv2 unit (h2_cfg ev) e (h2_sem ev) (h2_cp ev)) in
+      let hit := match o with Some (Some (true, _)) => true | _ => false end in
+      Bool.eqb hit (h2_hit ev) && file_eqb fl' (option_map (file_of tu td) (h2_after ev)) && check_events2 tu td fl' r
+  end.
+
+Definition check_hist2
+  (x : list (blob * list (string * string)) * list blob * option fileref * list hev2) : bool :=
+  let '(tu, td, f0, evs) := x in
+  let tu' := sTU tu in let td' := map XB td in
+  check_events2 tu' td' (option_map (file_of tu' td') f0) evs.
+
+(* ---- 5. repr() of str, byte for byte (round 12): (UTF-8 of the string, UTF-8 of Python's repr of it) ------------ *)
+Definition check_repr (x : string * string) : bool := beqb (srepr (B (fst x))) (B (snd x)).
+
+(* the real cache key: configuration and the hex digest found at the start of the header the implementation wrote *)
+Definition check_keyd (x : ccfg * string) : bool := String.eqb (key_digest (fst x)) (snd x).
